@@ -4,6 +4,7 @@
 //! Operations are first generated (corpus / replay file first, then from one PRNG seed) as plain
 //! op lines, then executed one by one against the real crates under `catch_unwind`.
 
+mod filter;
 mod tags;
 mod util;
 
@@ -23,7 +24,10 @@ struct Family {
     exec: fn(&[&str]) -> String,
 }
 
-const FAMILIES: &[Family] = &[Family { name: "tags", gen: tags::gen, exec: tags::exec }];
+const FAMILIES: &[Family] = &[
+    Family { name: "tags", gen: tags::gen, exec: tags::exec },
+    Family { name: "filter", gen: filter::gen, exec: filter::exec },
+];
 
 fn main() {
     let args: Vec<String> = std::env::args().collect();
